@@ -5,7 +5,7 @@ package main
 // C13 (stream framing) and the stream clause of C01.
 //
 // Kinds "stream" / "streamgarbage" (same runner, different generators and comparisons):
-//   <id> cfg=<cfgspec> l=<tcp|gnet> via=<sock|feed> segs=<hex>,<hex>,..  ups=<delayms>:<replyhex>,..|-
+//   <id> cfg=<cfgspec> l=<tcp|gnet|dot> via=<sock|feed>   (dot: via=feed only) segs=<hex>,<hex>,..  ups=<delayms>:<replyhex>,..|-
 //        exp=<n responses expected (hint: stop waiting early)> hc=<0|1|?> (hint: the server will close)
 //        gap=<ms between segments (sock)> burst=<0|1> probe=<0|1> [ids=.. rc5=.. phases=.. : oracle/model hints, ignored here]
 //        pz=<i>:<n>  before segment i wait until n whole responses have been read back, then 100 ms (two-phase cases)
@@ -18,8 +18,11 @@ package main
 //              Next/InboundBuffered/Write/AsyncWrite with gnet's semantics (single event-loop goroutine, buffers returned
 //              by Next are overwritten after OnTraffic returns); the connCtx is dumped after every read event.
 //              l=tcp: the real tcpServer.handleConn on one end of net.Pipe (each Write is one segment).
+//              l=dot: the same handleConn as a DoT server (temporary certificate) over net.Pipe; the client is
+//              crypto/tls, each segment is one Write = one TLS record (records of at most 16 KiB).
 
 import (
+	"crypto/tls"
 	"encoding/binary"
 	"errors"
 	"fmt"
@@ -299,7 +302,9 @@ func runStream(id string, parts []string) string {
 		case "feed/gnet":
 			raw, closed, tr = feedGnet(env, maxc, segs, exp, hc, grace, max, pause)
 		case "feed/tcp":
-			raw, closed = feedTcp(env, maxc, segs, exp, hc, grace, max, pause)
+			raw, closed = feedTcp(env, maxc, segs, exp, hc, grace, max, pause, false)
+		case "feed/dot":
+			raw, closed = feedTcp(env, maxc, segs, exp, hc, grace, max, pause, true)
 		default:
 			raw, closed = sockStream(env.Ports[f["l"]], segs, gap, exp, hc, grace, max, pause)
 		}
@@ -369,13 +374,29 @@ func feedGnet(env *hx.RouterEnv, maxc int, segs [][]byte, exp int, hc string, gr
 	return raw, closed, strings.Join(orDash(tr), ";")
 }
 
-func feedTcp(env *hx.RouterEnv, maxc int, segs [][]byte, exp int, hc string, grace, max time.Duration, pause func(int, *sink)) ([]byte, bool) {
-	cl, sv := net.Pipe()
+func feedTcp(env *hx.RouterEnv, maxc int, segs [][]byte, exp int, hc string, grace, max time.Duration, pause func(int, *sink), dot bool) ([]byte, bool) {
+	pcl, sv := net.Pipe()
+	var cl net.Conn = pcl
 	done := make(chan struct{})
 	go func() {
-		env.R.VerifTcpHandleConn(sv, int32(maxc), time.Hour)
+		if dot {
+			env.R.VerifDotHandleConn(sv, int32(maxc), time.Hour)
+		} else {
+			env.R.VerifTcpHandleConn(sv, int32(maxc), time.Hour)
+		}
 		close(done)
 	}()
+	if dot {
+		tc := tls.Client(pcl, &tls.Config{InsecureSkipVerify: true})
+		pcl.SetDeadline(time.Now().Add(5 * time.Second))
+		if err := tc.Handshake(); err != nil {
+			pcl.Close()
+			<-done
+			return []byte("handshake-failed"), true
+		}
+		pcl.SetDeadline(time.Time{})
+		cl = tc
+	}
 	out := &sink{}
 	go func() {
 		buf := make([]byte, 65536)
@@ -402,7 +423,11 @@ func feedTcp(env *hx.RouterEnv, maxc int, segs [][]byte, exp int, hc string, gra
 	}
 	waitSink(out, exp, hc, grace, max)
 	_, closed := out.snapshot()
+	if dot {
+		pcl.SetDeadline(time.Now().Add(2 * time.Second))
+	}
 	cl.Close()
+	pcl.Close()
 	select {
 	case <-done:
 	case <-time.After(5 * time.Second):
@@ -468,7 +493,9 @@ func probeAlive(env *hx.RouterEnv, via, l string, maxc int) string {
 	case "feed/gnet":
 		raw, _, _ = feedGnet(env, maxc, [][]byte{fr}, 1, "0", 5*time.Millisecond, 3*time.Second, nopause)
 	case "feed/tcp":
-		raw, _ = feedTcp(env, maxc, [][]byte{fr}, 1, "0", 5*time.Millisecond, 3*time.Second, nopause)
+		raw, _ = feedTcp(env, maxc, [][]byte{fr}, 1, "0", 5*time.Millisecond, 3*time.Second, nopause, false)
+	case "feed/dot":
+		raw, _ = feedTcp(env, maxc, [][]byte{fr}, 1, "0", 5*time.Millisecond, 3*time.Second, nopause, true)
 	default:
 		raw, _ = sockStream(env.Ports[l], [][]byte{fr}, 0, 1, "0", 5*time.Millisecond, 3*time.Second, nopause)
 	}
